@@ -272,6 +272,14 @@ func c06Gen(r *rand.Rand, tier string) []string {
 		out = append(out, fmt.Sprintf("kind=sinkfail agg=%s n=%d limit=%d", []string{"phout", "jsonlines"}[i%2],
 			[]int{0, 1, 2, 7, 40, 300}[r.Intn(6)], r.Intn(21)))
 	}
+	// an overloaded generator: the schedule is (partly) 2 s or more overdue and the pool discards overflow — the
+	// engine itself reports a "discarded" sample for those tokens (no drops: the queue holds everything)
+	for i := 0; i < nEngine/4; i++ {
+		agg := []string{"phout", "jsonlines"}[r.Intn(2)]
+		ammo, per := []int{1, 6, 40}[r.Intn(3)], 1+r.Intn(2)
+		out = append(out, fmt.Sprintf("kind=engine agg=%s pools=1 inst=%d ammo=%d per=%d q=%d slow=%d cancel=-1 seed=%d disc=%d",
+			agg, []int{1, 3}[r.Intn(2)], ammo, per, 4096, []int{0, 300}[r.Intn(2)], r.Intn(1<<20), []int{2020, 2100, 5000}[r.Intn(3)]))
+	}
 	for i := 0; i < nJSON; i++ {
 		n := 1 + r.Intn(6)
 		q := n + r.Intn(4)
@@ -329,6 +337,27 @@ func c06Gen(r *rand.Rand, tier string) []string {
 							out = append(out, fmt.Sprintf("kind=engine agg=%s pools=1 inst=%d ammo=%d per=%d q=%d slow=%d cancel=%d seed=%d",
 								agg, inst, ammo, per, 1+ammo*per, []int{0, 300}[r.Intn(2)], cancel, r.Intn(1<<20)))
 						}
+					}
+				}
+			}
+		}
+	}
+	if tier == "thorough" {
+		// (d) the failing sink: every small number of samples × every limit below one line, both aggregators
+		for _, agg := range []string{"phout", "jsonlines"} {
+			for n := 0; n <= 6; n++ {
+				for limit := 0; limit <= 20; limit++ {
+					out = append(out, fmt.Sprintf("kind=sinkfail agg=%s n=%d limit=%d", agg, n, limit))
+				}
+			}
+		}
+		// (e) overdue schedules: every small shape × how long ago the schedule started
+		for _, agg := range []string{"phout", "jsonlines"} {
+			for inst := 1; inst <= 2; inst++ {
+				for ammo := 1; ammo <= 4; ammo++ {
+					for _, disc := range []int{1990, 2005, 2010, 3000} {
+						out = append(out, fmt.Sprintf("kind=engine agg=%s pools=1 inst=%d ammo=%d per=1 q=64 slow=0 cancel=-1 seed=%d disc=%d",
+							agg, inst, ammo, r.Intn(1<<20), disc))
 					}
 				}
 			}
@@ -445,6 +474,9 @@ func c06Class(input, obs string) string {
 		if kv["cancel"] != "-1" {
 			c += ":cancel"
 		}
+		if kv["disc"] != "" {
+			c += ":discard"
+		}
 		if !strings.Contains(obs, "dropped=0 ") {
 			c += ":drops"
 		}
@@ -508,6 +540,6 @@ func main() {
 	}
 	drv.Main(&drv.Prop{
 		ID: "C06", Gen: c06Gen, Run: c06Run, Class: c06Class, Workers: workers, Timeout: 150 * time.Second,
-		Rule: "samples with boundary/random int64 fields, unicode/odd tags, ids on/off and boundary timestamps through the real phout aggregator (public setters, raw array, or only the non-zero values set on a sample taken from the pool of released ones) compared byte-exactly with the model; G∈{1,4,32,…} reporter goroutines × queue sizes {1,2,64,…} × flush intervals through the real phout and jsonlines aggregators with the cancel right after the last Report; random JSON values through jsonlines; sequences of different samples through one phout aggregator (whole file byte-exact); the same with the cancel in the middle of the reporting (reports completed before the cancel must be there), with the real file sink over stale content, with a sink that fails after N bytes (must still be closed; when only the final flush writes, Run's error, the close and the accepted bytes are predicted by the failing-sink model); the real engine.Engine with 1-2 pools × instances × ammo over the real aggregators, judged the moment Engine.Run returns nil or, cancelled mid-run, after Engine.Wait; the pandora binary built from main.go (phout, or jsonlines over the file sink) stopped by SIGINT/SIGTERM at a PRNG-chosen instant; a case is non-trivial when it produced at least one line or a panic",
+		Rule: "samples with boundary/random int64 fields, unicode/odd tags, ids on/off and boundary timestamps through the real phout aggregator (public setters, raw array, or only the non-zero values set on a sample taken from the pool of released ones) compared byte-exactly with the model; G∈{1,4,32,…} reporter goroutines × queue sizes {1,2,64,…} × flush intervals through the real phout and jsonlines aggregators with the cancel right after the last Report; random JSON values through jsonlines; sequences of different samples through one phout aggregator (whole file byte-exact); the same with the cancel in the middle of the reporting (reports completed before the cancel must be there), with the real file sink over stale content, with a sink that fails after N bytes (must still be closed; when only the final flush writes, Run's error, the close and the accepted bytes are predicted by the failing-sink model); the real engine.Engine with 1-2 pools × instances × ammo over the real aggregators, judged the moment Engine.Run returns nil or, cancelled mid-run, after Engine.Wait, also with a schedule that is overdue so that the engine itself reports discarded-shoot samples; the pandora binary built from main.go (phout, or jsonlines over the file sink) stopped by SIGINT/SIGTERM at a PRNG-chosen instant; a case is non-trivial when it produced at least one line or a panic",
 	})
 }
